@@ -19,6 +19,7 @@ type mChild struct {
 	nalloc    int
 	obj       *rt.Obj
 	mu        *sync.Mutex
+	capsPoint bool
 }
 
 type mCaps struct{ r, t bool }
@@ -37,7 +38,13 @@ func (c *mChild) add(f string, a ...interface{}) {
 	}
 	*c.log = append(*c.log, fmt.Sprintf("child%d ", c.id)+fmt.Sprintf(f, a...))
 }
-func (c *mChild) Capabilities() tally.Capabilities { return mCaps{c.reporting, c.tagging} }
+func (c *mChild) Capabilities() tally.Capabilities {
+	if c.capsPoint && rt.IsControlled() && !rt.Dead() && c.obj != nil {
+		c.obj.Fresh()
+		rt.Point(rt.OpRec, c.obj, nil) // asking a child may take a while
+	}
+	return mCaps{c.reporting, c.tagging}
+}
 func (c *mChild) Flush()                           { c.add("flush") }
 func (c *mChild) ReportCounter(n string, t map[string]string, v int64) {
 	c.add("counter %s %s %d", n, tagString(t), v)
@@ -481,6 +488,44 @@ func c19Scenarios(tier string) []*Scenario {
 		}
 		sc.Check = func(x *Run, o *rt.Outcome) (string, string, string) { return "", "", "ok" }
 		out = append(out, sc)
+		// G: two goroutines ask for the capabilities at the same time and look at the answer a little later:
+		// every answer ever handed out must be the conjunction (here: nothing), whoever else is asking meanwhile
+		sg := &Scenario{Property: "C19", Name: "G-concurrent-capabilities-" + b2s(cached)}
+		sg.Body = func(x *Run) {
+			var log []string
+			obj := &rt.Obj{}
+			mu := &sync.Mutex{}
+			var ps []tally.StatsReporter
+			var cs []tally.CachedStatsReporter
+			for i, able := range []bool{true, false, true} {
+				ch := &mChild{id: i, log: &log, reporting: able, tagging: able, obj: obj, mu: mu, capsPoint: true}
+				ps, cs = append(ps, ch), append(cs, ch)
+			}
+			var caps func() tally.Capabilities
+			if cached {
+				caps = multi.NewMultiCachedReporter(cs...).Capabilities
+			} else {
+				caps = multi.NewMultiReporter(ps...).Capabilities
+			}
+			ask := func() {
+				c := caps()
+				for i := 0; i < 2; i++ {
+					if rt.IsControlled() && !rt.Dead() {
+						obj.Fresh()
+						rt.Point(rt.OpRec, obj, nil) // the caller looks at the answer later
+					}
+					if c.Reporting() || c.Tagging() {
+						x.failf("capabilities-not-the-conjunction-under-concurrent-queries", "one child can neither report nor tag, yet an answer of Capabilities() read reporting=%v tagging=%v", c.Reporting(), c.Tagging())
+					}
+				}
+			}
+			t1 := rt.GoNamed("asker1", ask)
+			t2 := rt.GoNamed("asker2", ask)
+			t1.Join()
+			t2.Join()
+		}
+		sg.Check = func(x *Run, o *rt.Outcome) (string, string, string) { return "", "", "ok" }
+		out = append(out, sg)
 	}
 	return out
 }
